@@ -23,6 +23,8 @@ RULE = ("Real client and server application stacks on a fault-injecting virtual 
         " One reduced copy of a generated shard runs with the library's debug tracing switched on (label tracing-on)."
         " Single faults also against a serving application that answers after 1.5 segment timeouts (timer proportions 10 s / 2 s and 6 s / 1 s).")
 ASSUMPTIONS = [
+    "the serving application's thinking time plus one segment timeout stays below the APDU timeout (otherwise the requester repeats its request while a lost "
+    "first answer segment is still being repaired, and the standard's serving state machine aborts on a request it does not expect)",
     "the APDU timeout is not shorter than the segment timeout (with the reverse, the requester restarts a segmented request while the answer is still being repaired, and the standard's own state machine aborts)",
     "segment boundaries follow the library's slicing rule (payload / max-APDU); whether the resulting frames respect the peer's limits is C12",
     "the window rule counts every segment-ack offered to the LAN, even one the fault plan then drops (lenient towards the sender)",
@@ -365,7 +367,7 @@ def run(spec, ctx):
         plan_s = st.dictionaries(st.integers(0, 40).map(str), act, max_size=6)
         S = st.sampled_from([50, 128, 206])
         cfg = st.tuples(S, st.integers(0, 4), st.integers(0, 4), st.integers(1, 8), st.integers(1, 8), st.integers(-3, 3), st.integers(-3, 3),
-                        st.sampled_from([0.0, 0.0, 0.0, 0.7, 2.0])).map(
+                        st.sampled_from([0.0, 0.0, 0.0, 0.4, 0.7])).map(
             lambda t: base_cfg(t[0], req_len=max(0, (txn.payload_for_total(t[1] * t[0]) or 0) + t[5]), rsp_len=max(0, (txn.payload_for_total(t[2] * t[0]) or 0) + t[6]),
                                c_win=t[3], s_win=t[4], **(dict(think=t[7]) if t[7] else {})))
         strat = st.tuples(cfg, plan_s).map(lambda t: dict(k="txn", cfg=t[0], plan=t[1]))
